@@ -16,42 +16,42 @@ import (
 )
 
 type ClientReqRow struct {
-	In       string // query | header | path
-	Key      string
-	Field    *types.Var
-	Optional bool
-	Array    bool
-	Formats  []FormatCall
+	In        string // query | header | path
+	Key       string
+	Field     *types.Var
+	Optional  bool
+	Array     bool
+	Formats   []FormatCall
 	FromField bool
-	Escaped  bool // path: wrapped in url.PathEscape
-	Pos      token.Pos
+	Escaped   bool // path: wrapped in url.PathEscape
+	Pos       token.Pos
 }
 
 type ClientArm struct {
-	Status    string // "200" | "default"
-	TypeName  string
-	Type      types.Type
-	Rows      []*ParamRow
-	Body      string // json | raw | none
-	ClosesBody bool
+	Status       string // "200" | "default"
+	TypeName     string
+	Type         types.Type
+	Rows         []*ParamRow
+	Body         string // json | raw | none
+	ClosesBody   bool
 	CodeAssigned bool
-	ErrorOnly bool // undocumented default: returns nil, error
-	Pos       token.Pos
-	Undecided []string
+	ErrorOnly    bool // undocumented default: returns nil, error
+	Pos          token.Pos
+	Undecided    []string
 }
 
 type ClientMethod struct {
-	Name      string
-	Decl      *ast.FuncDecl
-	ReqType   types.Type
-	RespIface types.Type
-	Method    string
+	Name       string
+	Decl       *ast.FuncDecl
+	ReqType    types.Type
+	RespIface  types.Type
+	Method     string
 	URLPattern string
-	Rows      []*ClientReqRow
-	Body      string // json | reader | none
-	Arms      []*ClientArm
-	Default   *ClientArm
-	Undecided []string
+	Rows       []*ClientReqRow
+	Body       string // json | reader | none
+	Arms       []*ClientArm
+	Default    *ClientArm
+	Undecided  []string
 }
 
 func collectFormats(info *types.Info, n ast.Node) []FormatCall {
